@@ -242,6 +242,11 @@ def run_text(shard):
     rows += [('iso', s) for s in ('[13CH3]C', 'C[13CH2]C', '[2H]C([2H])C', 'C[15NH2]', '[18OH]C')]
     rows += [('alternating', s) for s in ('C1=CC=C1', 'C1=CC=CC=CC=C1', 'C1=CC=CC=CC=CC=C1', 'C=C1C=CC(=C)C=C1', 'O=C1C=CC(=O)C=C1', 'C1=CC=C1C', 'C1=CC1', 'C1=CCC=CC1', 'C1=CC=CCC1')]
     rows += [('metal', s) for s in inputs.organometallics()[::4]]
+    # fused, bridged, spiro and cage ring systems (those with a polyhedral skeleton fall under exclusion (ii) and are only counted)
+    rows += [('polycyclic', s) for s in ('c1ccc2ccccc2c1', 'c1ccc2cc3ccccc3cc2c1', 'c1ccc2c(c1)ccc1ccccc12', 'c1ccc2c(c1)c1ccccc1c1ccccc21', 'c1cc2cccc3c2c(c1)c1cccc2cccc3c12', 'c1ccc2c(c1)c1ccccc21',
+                                        'c1ccc2c(c1)Cc1ccccc12', 'C1CC2CCC1CC2', 'C1CC2CCC1C2', 'C1CC11CC1', 'C1CCC2CCCCC2C1', 'C1CCC2(CC1)CCCC2', 'c1cc2ccc3cccc4ccc(c1)c2c34', 'C1C2CC3CC1CC(C2)C3',
+                                        'OC12CC3CC(CC(C3)C1)C2', 'C1N2CN3CN1CN(C2)C3', 'C12C3C4C1C1C2C3C41', 'c1ccc2c(c1)ccc1c2ccc2ccccc12', 'c1ccc2cc3cc4ccccc4cc3cc2c1', 'C1CC2CCC3CCCC1C23',
+                                        'Cc1c2ccccc2cc2ccccc12', 'c1ccc2c(c1)[nH]c1ccccc12', 'c1ccc2c(c1)oc1ccccc12', 'C1CCC2C(C1)CCC1CCCCC12', 'CC(N)C12CC3CC(CC(C3)C1)C2', 'c1ccc(cc1)C12CC3CC(CC(C3)C1)C2')]
     rows += [('corpus', s) for s in M.corpus(stride=16 if tier == 'quick' else 2)]
     for i, (fam, s) in enumerate(rows):
         if i % nsh != k:
